@@ -263,8 +263,8 @@ class Histogram1D(ObjectWithBinning, HistogramBase):
         # Masked arrays or item list or ...
         return self.__class__(
             self._binning.as_static(copy=False)[index],
-            self.frequencies[index],
-            self.errors2[index],
+            np.copy(self.frequencies[index]),
+            np.copy(self.errors2[index]),
             overflow=overflow,
             keep_missed=keep_missed,
             underflow=underflow,
